@@ -224,7 +224,10 @@ def run_part(pid, part, tier, seed, rundir, viols, agg, problems):
                 "part": name,
             })
             attempts[s] += 1
-            if cur is not None and attempts[s] <= part.get("max_crashes", 12):
+            mc = part.get("max_crashes", 12)
+            if isinstance(mc, dict):
+                mc = mc.get(tier, 12)
+            if cur is not None and attempts[s] <= mc:
                 start(s, case, attempts[s])
             else:
                 problems.append("part %s shard %d: gave up after %d crashes" % (name, s, attempts[s]))
